@@ -224,8 +224,15 @@ func (g *sim) runOne(id string) {
 		}
 	}
 	if strings.HasPrefix(id, "cfg:") && g.p.DevErrors && g.r.Chance(1, 5) {
-		args = append(args, "dev="+g.r.Pick([]string{"retry", "wait"}), fmt.Sprintf("syncok=%d", g.r.Intn(2)))
+		// a re-synchronisation request answered with a transient error, a superseded-master refusal, or a
+		// plain refusal (the configuration stays SYNCHRONIZING and is retried; it must not be reported
+		// synchronized with a request missing)
+		d := g.r.Pick([]string{"retry", "wait", "fail:INTERNAL", "fail:INVALID"})
+		args = append(args, "dev="+d, fmt.Sprintf("syncok=%d", g.r.Intn(2)))
 		g.tags["sync-error"] = true
+		if strings.HasPrefix(d, "fail") {
+			g.tags["sync-refused"] = true
+		}
 	}
 	if g.p.Injections && g.r.Chance(1, 6) {
 		kind := g.r.Pick([]string{"fail", "conflict"})
